@@ -26,6 +26,7 @@ def check_case(case, ctx):
     s1, i1 = base.pkg(one.match, path, unique=case.get("unique", False))
     c1 = base.canon(one, s1, i1)
     inc = common.build(case)
+    common.run_decoy(case, inc)  # the matcher that is fed incrementally may have been used for another trace before
     cuts = [c for c in case["cuts"] if 0 < c < n]
     res = None
     for j, c in enumerate(cuts + [n]):
@@ -65,5 +66,6 @@ def strategy(tier):
         cuts = sorted(set(draw(st.lists(st.integers(1, max(1, n - 1)), min_size=1, max_size=4))))
         case["cuts"] = cuts
         case["unique"] = draw(st.booleans())
+        case = draw(common.maybe_decoy(case, share=3))
         return case
     return _s()
